@@ -474,8 +474,8 @@ def main(tier):
     hists = enumerate_histories(depth)
     if tier != "quick":
         # depth 4 is large (226k sequences): keep every sequence of depth <= 3, and the depth-4 sequences that
-        # start with a two-period first session and contain no parameter mismatch (those are covered at depth <= 3)
-        hists = [h for h in hists if len(h) <= 3 or (h[0][2] in ("two_periods", "two_periods_b") and all(x[1] != "mismatch" for x in h))]
+        # start with the first two-period first session and contain no parameter mismatch (those are covered at depth <= 3)
+        hists = [h for h in hists if len(h) <= 3 or (h[0][2] == "two_periods" and all(x[1] != "mismatch" for x in h))]
     # recordings that begin at index 0 of the epoch: up to two sessions (quick) / three (thorough), without mismatches
     hists = [h for h in hists if h[0][1] != "zero" or (len(h) <= (2 if tier == "quick" else 3) and all(x[1] != "mismatch" for x in h))]
     jobs = [(mode, h) for mode in ("gapped", "cont") for h in hists if len(h) <= 3 or mode == "gapped"]
